@@ -68,11 +68,12 @@ def obligation(oid, shapes, functions, assumes=(), patches=None, title="",
 # ---------------------------------------------------------------------------
 
 class CexFound(BaseException):
-    def __init__(self, label, values, model, known_key=None):
+    def __init__(self, label, values, model, known_key=None, sizes=None):
         self.label = label
         self.values = values
         self.model = model
         self.known_key = known_key
+        self.sizes = sizes or {}
 
 
 class Reproduced(BaseException):
@@ -144,14 +145,18 @@ class HInputs(Inputs):
                         continue
                     r2, m = self._oneshot(c, [neg, _b(p)])
                     if r2 == z3.sat:
-                        raise CexFound(label, self.model_values(m), m, k)
+                        raise CexFound(label, self.model_values(m), m, k,
+                                       self.sizes())
             self.unsat += 1
             return
         if r == z3.unknown:
             self.unknown += 1
             raise Inconclusive("solver unknown at check %r" % label)
         self.sat += 1
-        raise CexFound(label, self.model_values(m), m)
+        raise CexFound(label, self.model_values(m), m, None, self.sizes())
+
+    def sizes(self):
+        return dict((nm, v.size()) for nm, v in self.decl.items())
 
     @staticmethod
     def _oneshot(c, extra):
@@ -279,10 +284,38 @@ def run_job(job):
                 res["status"] = "violation"
                 res["detail"] = record
             else:
-                res["status"] = "inconclusive"
-                res["detail"] = dict(
-                    reason="counterexample did not reproduce natively",
-                    record=record)
+                # The solver's assignment did not replay (it may lean on an
+                # interpretation of an abstracted function that the real
+                # arithmetic does not share).  Search for a concrete witness
+                # natively: a replayed violation is a violation however it
+                # was found; without one the job is inconclusive.
+                import random as _random
+                rnd = _random.Random(int(seed) + 12345)
+                found = None
+                for _try in range(40):
+                    vals = dict((nm, rnd.getrandbits(bits))
+                                for nm, bits in cex.sizes.items())
+                    if _try % 2:
+                        # keep the solver's values for half of the variables
+                        for nm in list(vals):
+                            if rnd.random() < 0.5 and nm in cex.values:
+                                vals[nm] = cex.values[nm]
+                    rep2 = replay_native(obl, shape, vals, None, stubs)
+                    if rep2["reproduced"]:
+                        found = (vals, rep2)
+                        break
+                if found:
+                    res["status"] = "violation"
+                    res["detail"] = dict(
+                        obligation=oid, shape=shape, label=found[1]["label"],
+                        inputs=found[0], native=found[1],
+                        note="solver counterexample did not replay; this "
+                             "witness was found by native search around it")
+                else:
+                    res["status"] = "inconclusive"
+                    res["detail"] = dict(
+                        reason="counterexample did not reproduce natively",
+                        record=record)
             break
         if res["status"] == "pass" and res["reached"] == 0:
             res["status"] = "inconclusive"
